@@ -290,6 +290,13 @@ func ruleStateCoverage(c *Ctx, r *Report) {
 					continue
 				}
 				_, isArith := v.(*ssa.BinOp)
+				if cl, isCall := v.(*ssa.Call); isCall && f == "sequenceNumber" {
+					// the send counter is the next number to use: clamped, an exhausted epoch
+					// comes back with its last number free again
+					if nm := calleeName(&cl.Call); nm == "builtin:min" || nm == "builtin:max" {
+						isArith = true
+					}
+				}
 				r.Check(!isArith, rule, short(fn)+":verbatim:"+f, c.ipos(in), "State."+f+" is the serialised value as it is", "State."+f+" is computed from the serialised value ("+shapeOf(v, 0)+") instead of being taken as it is: an exported counter at or beyond its limit can come back as a small, already used value")
 			}
 		}
